@@ -1,17 +1,19 @@
-// Kani harness for searchlite-ffi/src/lib.rs (K5: the bounded copy at the end of searchlite_search).
-// The two slices of searchlite_search are cut out mechanically on every run (kani/ffi_copy.tpl ->
-// .cache/gen/ffi_copy.rs) and compiled here inside the real crate; the harness never reaches the engine.
+// Kani harness for searchlite-ffi/src/lib.rs (K5: the tail of searchlite_search - output-buffer guard, bounded copy, NUL).
+// Everything after the `reader.search(&req)` call is cut out mechanically on every run (kani/ffi_copy.tpl ->
+// .cache/gen/ffi_copy.rs; the serialisation call is replaced by the parameter `encoded_in`) and compiled here inside
+// the real crate; the harness never reaches the engine.
 use super::*;
 include!("/verif/.cache/gen/ffi_copy.rs");
 
 #[cfg(not(verif_thorough))]
 const N: usize = 32;
 #[cfg(verif_thorough)]
-const N: usize = 1024;
+const N: usize = 256;
 const CANARY: u8 = 0xAA;
 
 // C26: writes at most buf_cap bytes including the NUL, text before the NUL is a prefix of the response,
-// returns the number of bytes before the NUL, nothing outside the caller's buffer is touched.
+// returns the number of bytes before the NUL, nothing outside the caller's buffer is touched; capacity 0 writes nothing.
+// (null out_json_buf: see the extractor side condition in vfw/kani_run.py)
 #[kani::proof]
 #[kani::unwind(2)]
 fn k5_copy_stays_in_buffer() {
@@ -19,40 +21,31 @@ fn k5_copy_stays_in_buffer() {
   let n: usize = kani::any();
   kani::assume(n <= N);
   let cap: usize = kani::any();
-  kani::assume(1 <= cap && cap <= N + 2);
+  kani::assume(cap <= N + 2);
   // the caller's buffer is buf[..cap]; everything behind it is canary
   let mut buf = [CANARY; N + 4];
-  let r = unsafe { ffi_copy_tail(&src[..n], buf.as_mut_ptr() as *mut c_char, cap) };
-  let expect = if n < cap - 1 { n } else { cap - 1 };
-  assert!(r == expect);
-  assert!(r < cap);
-  assert!(buf[r] == 0);
+  let encoded = unsafe { String::from_utf8_unchecked(src[..n].to_vec()) };
+  let r = unsafe { ffi_tail(encoded, buf.as_mut_ptr() as *mut c_char, cap) };
   let i: usize = kani::any();
   kani::assume(i < N + 4);
-  if i < r {
-    assert!(buf[i] == src[i]);
-  }
-  if i >= cap {
-    assert!(buf[i] == CANARY);
-  }
-  kani::cover!(n > cap);
-  kani::cover!(n + 1 < cap);
-}
-
-// null buffer or zero capacity: returns 0 without writing
-#[kani::proof]
-fn k5_guard_rejects_null_and_zero_capacity() {
-  let mut buf = [CANARY; 4];
-  let cap: usize = kani::any();
-  let use_null: bool = kani::any();
-  let p = if use_null { std::ptr::null_mut() } else { buf.as_mut_ptr() as *mut c_char };
-  let r = unsafe { ffi_guard(p, cap) };
-  if use_null || cap == 0 {
+  if cap == 0 {
     assert!(r == 0);
+    assert!(buf[i] == CANARY);
   } else {
-    assert!(r == usize::MAX); // falls through to the copy
+    let expect = if n < cap - 1 { n } else { cap - 1 };
+    assert!(r == expect);
+    assert!(r < cap);
+    assert!(buf[r] == 0);
+    if i < r {
+      assert!(buf[i] == src[i]);
+    }
+    if i >= cap {
+      assert!(buf[i] == CANARY);
+    }
   }
-  assert!(buf[0] == CANARY && buf[1] == CANARY && buf[2] == CANARY && buf[3] == CANARY);
+  kani::cover!(cap > 0 && n > cap);
+  kani::cover!(n + 1 < cap);
+  kani::cover!(cap == 0);
 }
 
 // concrete-playback tests (empty unless a failed harness is being replayed)
